@@ -114,18 +114,39 @@ def fn_stream(ctx, n, so, to, tts, extra, reordering):
     s.op('a1', 'gc')
 
 
-def copy_vars(ctx, n, order):
-    """copy_vars reproduces names and levels (dd._copy.copy_vars: add_var by level)"""
-    s = ctx.session(f'copy_vars n={n} order={order}')
-    s.op(0, 'new', {v: l for v, l in zip(range(n), order)})
-    s.op(1, 'new', {})
-    # the implementation iterates `source.vars` (dict order = declaration order)
-    for v in range(n):
-        s.op(1, 'add_var', v, order[v])
-    b0, b1 = s.impl.mgr[0], s.impl.mgr[1]
-    ctx.case(('copy_vars', n, order), True)
-    if b0.vars != b1.vars:
-        ctx.violation('C11:copy_vars', f'{b0.vars} copied as {b1.vars}', lambda: dict(lines=list(s.lines)))
+def copy_vars(ctx, n, order, pre=None, autoref=False):
+    """`dd._copy.copy_vars(source, target)` reproduces names and levels, or refuses; `pre`:
+    variables the target declares beforehand (name -> level; possibly in conflict)"""
+    s = ctx.session(f'copy_vars n={n} order={order} pre={pre} autoref={autoref}')
+    S, Tg = ('a0', 'a1') if autoref else (0, 1)
+    s.op(S, 'new', {v: l for v, l in zip(range(n), order)})
+    s.op(Tg, 'new', dict(pre or {}))
+    if not s.ok():
+        return
+    mg = s.impl.amgr if autoref else s.impl.mgr
+    b0, b1 = mg[S], mg[Tg]
+    before = dict(b1.vars)
+    ok = s.copy_vars(S, Tg)
+    case = lambda: dict(stream=s.label, lines=list(s.lines))  # noqa: E731
+    ctx.case(('copy_vars', n, tuple(order), tuple(sorted((pre or {}).items())), autoref), True)
+    ctx.count('copy_vars' + ('' if ok else ':refused'))
+    if ok:
+        bad = {v: (l, b1.vars.get(v)) for v, l in b0.vars.items() if b1.vars.get(v) != l}
+        if bad:
+            ctx.violation('C11:copy_vars', f'copy_vars returned but names/levels are not reproduced: {bad} '
+                                           f'(target declared {before})', case)
+    else:
+        # a refusal is legitimate only when the request is impossible
+        possible = all(before.get(v, l) == l for v, l in b0.vars.items()) and \
+            all(v in b0.vars or l not in b0.vars.values() for v, l in before.items())
+        if possible and not pre:
+            ctx.violation('C11:copy_vars', 'copy_vars refused a fresh target', case)
+    # the views of the target still describe one bijection
+    bb = b1._bdd if autoref else b1
+    if sorted(bb.vars.values()) != list(range(len(bb.vars))) or \
+            any(bb._level_to_var.get(l) != v for v, l in bb.vars.items()):
+        if not (pre and not ok):
+            ctx.violation('C11:copy_vars', f'target order is not a bijection: {bb.vars}', case)
 
 
 def run(ctx):
@@ -155,4 +176,26 @@ def run(ctx):
     import dd._copy as C
     for n in (1, 2, 3, 4):
         for order in gen.orders(n):
-            copy_vars(ctx, n, order)
+            copy_vars(ctx, n, order, autoref=rng.random() < 0.3)
+    # targets that already declare some of the names (at the same or at other levels) or
+    # other names at some of the levels
+    for _ in range(20 if q else 300):
+        n = rng.choice([3, 4])
+        order = rng.choice(gen.orders(n))
+        k = rng.randint(1, n)
+        names = rng.sample(range(n + 2), k)      # n, n+1: names the source does not have
+        levels = list(range(k))
+        rng.shuffle(levels)
+        pre = dict(zip(names, levels))
+        r = rng.random()
+        inv = {l: v for v, l in zip(range(n), order)}
+        if r < 0.3:
+            # agreeing prefix: the source's own levels for the lowest levels
+            pre = {inv[l]: l for l in range(k)}
+        elif r < 0.65 and k >= 2:
+            # the source's own variables of the lowest k levels, at permuted levels
+            lv = list(range(k))
+            while lv == list(range(k)):
+                rng.shuffle(lv)
+            pre = {inv[l]: lv[l] for l in range(k)}
+        copy_vars(ctx, n, order, pre=pre, autoref=rng.random() < 0.3)
